@@ -212,6 +212,29 @@ class LenClass:
             return any(self._is_matrix(a, depth + 1) for a in n.args[1:])
         return False
 
+    def _matrix_shaped(self, n: Node, depth=0) -> bool:
+        """the value has a row of values per event: an array the code treats as an events-by-k matrix, an updated /
+        scaled version of one, or the (m.T * v).T product.  Used for the shapes of the alternatives of a decision."""
+        if depth > 24:
+            return False
+        if self._is_matrix(n):
+            return True
+        if n.op == "Scatter":
+            return self._matrix_shaped(n.args[0], depth + 1)
+        if n.op == "Phi":
+            return any(self._matrix_shaped(a, depth + 1) for a in n.args[1:])
+        if n.op == "Attr" and n.attr == "T":
+            x = n.args[0]
+            if x.op == "BinOp":
+                return any(a.op == "Attr" and a.attr == "T" and self._matrix_shaped(a.args[0], depth + 1) for a in x.args)
+            return False
+        if n.op == "BinOp" and n.attr in ("Add", "Sub", "Mult", "Div", "Pow"):
+            return any(self._matrix_shaped(a, depth + 1) for a in n.args)
+        if n.op == "Call" and n.args and n.args[0].op == "Ext" and n.args[0].attr.startswith("numpy.") and \
+                n.args[0].attr.split(".")[-1] in ELEMENTWISE_1 and len(n.args) >= 2:
+            return self._matrix_shaped(n.args[1], depth + 1)
+        return False
+
     def _is_vector(self, n: Node, depth=0) -> bool:
         """provably one value per event in a 1-D array: a seeded per-event column, selections of it, and element-wise
         arithmetic / functions of such values and scalars"""
@@ -228,6 +251,10 @@ class LenClass:
         if n.op == "Call" and n.args and n.args[0].op == "Ext" and n.args[0].attr.startswith(("numpy.", "math.")) and \
                 n.args[0].attr.split(".")[-1] in ELEMENTWISE_1:
             return len(n.args) >= 2 and self._is_vector(n.args[1], depth + 1)
+        if n.op == "Call" and n.args and n.args[0].op == "Ext" and n.args[0].attr in (
+                "numpy.zeros_like", "numpy.ones_like", "numpy.empty_like", "numpy.full_like") and len(n.args) >= 2 and \
+                "shape" not in (n.attr[2] or ()):
+            return self._is_vector(n.args[1], depth + 1)       # same shape as its prototype
         return False
 
     def _axis_alignment(self, n: Node, c):
@@ -366,6 +393,13 @@ class LenClass:
                 return self.of(a)
             ca, cb = self.of(a), self.of(b)
             if ca == cb:
+                if is_def(ca) and ((self._matrix_shaped(a) and self._is_vector(b)) or
+                                   (self._matrix_shaped(b) and self._is_vector(a))):
+                    # one value per event on one arm, a row of values per event on the other: pieces of a batch that
+                    # take different arms cannot be put together again (and a broadcast hides the difference)
+                    at = n if n.fn is not None else a
+                    self.conflicts.append(Conflict(at, ca, cb, "the alternatives of a decision have different shapes "
+                                                               "(one value per event / one row per event)"))
                 return ca
             if ca == S:
                 return cb
